@@ -532,7 +532,7 @@ expandfunc(struct macro *m)
 	}
 	if (i + 1 < m->nparam)
 		error(&t->loc, "not enough arguments for macro '%s'", m->name);
-	if (t->kind != TRPAREN)
+	if (t->kind != TRPAREN || i > 0 && i == m->nparam)
 		error(&t->loc, "too many arguments for macro '%s'", m->name);
 	for (i = 0, t = tok.val; i < m->nparam; ++i) {
 		arg[i].token = t;
